@@ -10,7 +10,7 @@ import struct
 from ..astutil import (call_attr, get_arg, iter_calls, iter_stores, propagate, same_expr, single_assign_env,
                        walk_local, const_str)
 from ..exprnf import ExprEval, Poly
-from ..flow import Flow
+from ..flow import Flow, path_conditions
 from ..index import AnalysisError, AnchorMissing, dotted, norm
 
 CCCC = "armi.nuclearDataIO.cccc.cccc"
@@ -1225,13 +1225,7 @@ def r16_compxs_scatter_column(idx, r):
     call = next((c for c in iter_calls(rd.node) if dotted(c.func) == "_flattenScatteringVector"), None)
     if call is None or len(call.args) != len(w.params()):
         raise AnchorMissing("_rwScatteringMatrix: _flattenScatteringVector(column, group, numUp, numDown)")
-    wenv = single_assign_env(w.node)
-    ret = next((n for n in walk_local(w.node) if isinstance(n, ast.Return)), None)
-    rv = propagate(ret.value, wenv)
-    sl = [x for x in ast.walk(rv) if isinstance(x, ast.Subscript) and isinstance(x.slice, ast.Slice) and norm(x.value) == w.params()[0]]
-    if len(sl) != 1 or sl[0].slice.step is not None or sl[0].slice.lower is None or sl[0].slice.upper is None:
-        raise AnalysisError("_flattenScatteringVector: one slice [lo:hi] of the column expected")
-    nrev = sum(1 for x in ast.walk(rv) if isinstance(x, ast.Call) and dotted(x.func) == "reversed") + sum(1 for x in ast.walk(rv) if isinstance(x, ast.Subscript) and isinstance(x.slice, ast.Slice) and norm(x.slice) == "::-1")
+    # the writer is executed on a column whose entry k IS the row number k: what it returns is the sequence of rows it emits
     st_ = [s_ for s_ in iter_stores(rd.node) if s_.attr == "indicesj" and s_.value is not None]
     add = next((c for c in iter_calls(rd.node) if call_attr(c) == "addColumnData"), None)
     if len(st_) != 1 or add is None or norm(add.args[1]) != "indicesj" or norm(add.args[0]) != "dataj":
@@ -1246,11 +1240,9 @@ def r16_compxs_scatter_column(idx, r):
     for g in range(0, 6):
         for up in range(0, 4):
             for dn in range(0, min(g, 3) + 1):
-                wvals = dict(zip(w.params()[1:], (g, up, dn)))
-                lo, hi = ev._ev(sl[0].slice.lower, dict(wvals)), ev._ev(sl[0].slice.upper, dict(wvals))
-                want = list(range(lo, hi))
-                if nrev % 2:
-                    want.reverse()
+                wargs = dict(zip(w.params(), (list(range(0, g + up + 3)), g, up, dn)))
+                want, _ = MiniEval().run(w.node, wargs)
+                want = list(want)
                 got = ev._ev(rexpr, dict(zip(names, (g, up, dn))))
                 n += 1
                 if list(got) != want and bad is None:
@@ -1359,6 +1351,98 @@ def r18_dispatch_tables(idx, r):
     r.ok("nuclide-level-counts-scanned", f)
 
 
+def r19_whole_record_flushed(idx, r):
+    """(a) A record is buffered field by field and flushed in slices of io.DEFAULT_BUFFER_SIZE fields: whatever the number of fields, the
+    slices written must cover all of them exactly once (the byte counts announce the whole record).  The flush loop of every record writer
+    is executed here for record lengths around one and two buffer sizes.  (b) LABELS: the half-height / extrapolation record exists when
+    EITHER transverse direction has half heights."""
+    from ..minieval import MiniEval
+    B = 8192
+    n = 0
+    for cname in ("BinaryRecordWriter", "AsciiRecordWriter"):
+        c = idx.cls(CCCC + "." + cname)
+        f = c.methods.get("close") if c is not None else None
+        w = c.resolve("_write_buffer_to_stream") if c is not None else None
+        if f is None:
+            raise AnchorMissing(f"{cname}.close")
+        if not any(dotted(x.func) == "self._write_buffer_to_stream" for x in iter_calls(f.node)):
+            whole = any(isinstance(x, ast.Call) and call_attr(x) == "join" and x.args and norm(x.args[0]) == "self.data" for x in ast.walk(f.node))
+            r.require(whole, f"{cname}.close:every-field-flushed-once", f, msg="a writer that does not flush in slices writes the joined buffer in one piece")
+            n += 1
+            continue
+        if w is None:
+            raise AnchorMissing(f"{cname}._write_buffer_to_stream")
+        sl = next((x for x in ast.walk(w.node) if isinstance(x, ast.Subscript) and norm(x.value) == "self.data" and isinstance(x.slice, ast.Slice)), None)
+        if sl is None or norm(sl.slice.lower) != w.params()[1] or norm(sl.slice.upper) not in (f"{w.params()[1]} + io.DEFAULT_BUFFER_SIZE", f"io.DEFAULT_BUFFER_SIZE + {w.params()[1]}"):
+            raise AnalysisError(f"{cname}._write_buffer_to_stream: expected self.data[i : i + io.DEFAULT_BUFFER_SIZE]")
+
+        class _Subst(ast.NodeTransformer):
+            def __init__(self, L):
+                self.L = L
+
+            def visit_Call(self, node):
+                if dotted(node.func) == "len" and node.args and norm(node.args[0]) == "self.data":
+                    return ast.copy_location(ast.Constant(self.L), node)
+                return self.generic_visit(node)
+
+            def visit_Attribute(self, node):
+                if norm(node) == "io.DEFAULT_BUFFER_SIZE":
+                    return ast.copy_location(ast.Constant(B), node)
+                if norm(node) == "self._hasRecordBoundaries":
+                    return ast.copy_location(ast.Constant(False), node)
+                return self.generic_visit(node)
+        import copy as _copy
+        bad = None
+        for L in (0, 1, B - 1, B, B + 1, 2 * B - 1, 2 * B, 2 * B + 5, 9000):
+            starts = []
+
+            def hook(call, args, starts=starts):
+                d = dotted(call.func) or ""
+                if d == "self._write_buffer_to_stream" and args is not None:
+                    starts.append(args[0])
+                    return True
+                if d.startswith(("self._stream.", "self._getPackedNumBytes", "runLog.")):
+                    return True
+                return None
+            fn = _Subst(L).visit(_copy.deepcopy(f.node))
+            MiniEval(call_hook=hook).run(fn, {})
+            covered = sorted(x for s0 in starts for x in range(s0, min(s0 + B, L)))
+            if covered != list(range(L)):
+                bad = (L, starts)
+                break
+        n += 1
+        r.require(bad is None, f"{cname}.close:every-field-flushed-once", f,
+                  msg=(f"a record of {bad[0]} fields is flushed from positions {bad[1]} in slices of {B}: fields are {'missing' if len(set(x for s0 in bad[1] for x in range(s0, min(s0 + B, bad[0])))) < bad[0] else 'written twice'}, "
+                       "while the leading and trailing byte counts still announce the full record") if bad else "")
+    lb = idx.method(PKG + "labels.LabelsStream", "readWrite") or idx.method("armi.nuclearDataIO.cccc.labels.LabelsStream", "readWrite")
+    call3 = next((c for c in iter_calls(lb.node) if dotted(c.func) == "self._rw3DRecord"), None)
+    if call3 is None:
+        raise AnchorMissing("LabelsStream.readWrite: self._rw3DRecord()")
+    t = next((tt for tt, p in path_conditions(lb.node, call3) if p and "numHalfHeights" in norm(tt)), None)
+    ev = MiniEval()
+    tab = {}
+    if t is not None:
+        class _S2(ast.NodeTransformer):
+            def __init__(self, a, b):
+                self.a, self.b = a, b
+
+            def visit_Subscript(self, node):
+                k = norm(node)
+                if k == "self._metadata['numHalfHeightsDirection1']":
+                    return ast.copy_location(ast.Constant(self.a), node)
+                if k == "self._metadata['numHalfHeightsDirection2']":
+                    return ast.copy_location(ast.Constant(self.b), node)
+                return node
+        import copy as _copy
+        for a in (0, 3):
+            for b in (0, 2):
+                tab[(a, b)] = bool(ev._truth(ev._ev(_S2(a, b).visit(_copy.deepcopy(t)), {})))
+    r.require(t is not None and tab == {(0, 0): False, (3, 0): True, (0, 2): True, (3, 2): True}, "labels:half-height-record-when-either-direction-has-some", lb, node=call3,
+              msg=f"the 3D record is transferred for (NHTS1, NHTS2) -> {tab}: with half heights in one direction only the record (half heights and extrapolation distances) is neither written nor read")
+    if n < 2:
+        raise AnalysisError("record writers not found")
+
+
 def run(idx, chk):
     chk.explanation = (
         "C09: static reader/writer agreement for CCCC records: struct formats, byte counters and ASCII field widths of "
@@ -1413,3 +1497,5 @@ def run(idx, chk):
                  necessary="a double written is the double read back")
     chk.run_rule("R09.18", "GEODST mesh record chosen per geometry code as the format prescribes (all codes 0..18); nuclide records sized by the nuclide's own heading", lambda r: r18_dispatch_tables(idx, r), floor=2,
                  necessary="every record the format prescribes for a file is written and read")
+    chk.run_rule("R09.19", "the flush loop of each record writer covers every buffered field exactly once (lengths around 1-2 buffers); LABELS 3D record present when either direction has half heights", lambda r: r19_whole_record_flushed(idx, r), floor=3,
+                 necessary="the payload written is the payload the byte counts announce; every record the format prescribes is transferred")
